@@ -220,6 +220,7 @@ var mutantCatalogue = map[string][]mutant{
 		{Name: "L3 dirty flag keyed by the L1 alignment", File: "proc/mvp8-0/cc.go", Old: "\tl3Addr := getL3AlignedMemoryAddress([]int32{int32(l1Addr)})\n\tcc.msi.l3WriteNotify(l3Addr)", New: "\tl3Addr := getL1AlignedMemoryAddress([]int32{int32(l1Addr)})\n\tcc.msi.l3WriteNotify(l3Addr)"},
 	},
 	"C06": {
+		{Name: "owner stores without testing the line lock", File: "proc/mvp7-1/msi.go", Old: "\tcase modified:\n\t\tif !m.getSem(addrs).Lock() {\n\t\t\treturn msiResponse{wait: true}, noop, nil\n\t\t}\n\t\treturn msiResponse{writeToL1: true}", New: "\tcase modified:\n\t\tm.getSem(addrs).Lock()\n\t\treturn msiResponse{writeToL1: true}"},
 		{Name: "a read takes the write lock", File: "proc/mvp8-0/cc.go", Old: "resp, post, sem := cc.msi.l1RLock(cc.id, r.addrs)", New: "resp, post, sem := cc.msi.l1Lock(cc.id, r.addrs)"},
 		{Name: "an L1 command built by the L3 constructor", File: "proc/mvp8-0/msi.go", Old: "pendings = append(pendings, m.sendNewL1MSICommand(e.id, alignedAddr, l1Evict))", New: "pendings = append(pendings, m.sendNewL3MSICommand(e.id, alignedAddr, l1Evict))"},
 		{Name: "a Modified line displaced by a plain evict", File: "proc/mvp7-1/msi.go", Old: "\t\treturn m.sendNewMSICommand(id, alignedAddr, writeBack)\n\tdefault:\n\t\treturn nil", New: "\t\treturn m.sendNewMSICommand(id, alignedAddr, evict)\n\tdefault:\n\t\treturn nil"},
@@ -246,6 +247,7 @@ var mutantCatalogue = map[string][]mutant{
 		{Name: "latency read from a global counter", File: "proc/comp/cache.go", Old: "func (c *LRUCache) Lines() []Line {", New: "func (c *LRUCache) Skew() int {\n\treturn Delta % 2\n}\n\nfunc (c *LRUCache) Lines() []Line {"},
 	},
 	"C10": {
+		{Name: "pending fetch interval one word short of the line", File: "proc/mvp6-1/mmu.go", Old: "[2]int32{addrs[0], addrs[0] + l3CacheLineSize + 1}", New: "[2]int32{addrs[0], addrs[0] + l3CacheLineSize - 4}"},
 		{Name: "store goes around a resident line", File: "proc/mvp4/eu.go", Old: "if execution.MemoryChange && eu.mmu.doesExecutionMemoryChangesExistsInL1D(execution) {", New: "if execution.MemoryChange && !eu.mmu.doesExecutionMemoryChangesExistsInL1D(execution) {"},
 		{Name: "load data never reaches Run", File: "proc/mvp8-0/eu.go", Old: "\t\t\tu.memory = resp.data\n", New: ""},
 		{Name: "reader admitted beside a writer", File: "proc/comp/semaphore.go", Old: "func (s *Sem) RLock() bool {\n\tif s.write > 0 {\n\t\treturn false\n\t}\n", New: "func (s *Sem) RLock() bool {\n"},
